@@ -248,7 +248,19 @@ pub fn build(xot: &mut Xot, a: &ANode, route: Route, style: AttrStyle) -> Result
     if !maybe_collide(xot, a) {
         age_xot(xot, a);
     }
+    let before: Option<std::collections::HashSet<Node>> = if style == AttrStyle::Redeclare { Some(xot.verif_live_nodes().into_iter().collect()) } else { None };
     let h = build_rec(xot, a, route, style)?;
+    if let Some(before) = before {
+        // housekeeping: the Redeclare style leaves nodes behind that are not part of the tree (the attribute nodes whose
+        // value was copied into an existing entry, and the node append_namespace creates internally for a prefix that
+        // already exists); the monitors are to see the tree and nothing else
+        let keep: std::collections::HashSet<Node> = h.flat_all().into_iter().collect();
+        for n in xot.verif_live_nodes() {
+            if !before.contains(&n) && !keep.contains(&n) && !xot.is_removed(n) && xot.parent(n).is_none() {
+                let _ = xot.remove(n);
+            }
+        }
+    }
     shake(xot, a, &h)?;
     Ok(h)
 }
